@@ -48,6 +48,20 @@ def expand(r):
     return [r]
 
 
+def _live_tags(x, seen=None):
+    seen = seen if seen is not None else set()
+    if id(x) in seen:
+        return
+    seen.add(id(x))
+    if isinstance(x, ht.Tag):
+        yield x
+        for c in x.children:
+            yield from _live_tags(c, seen)
+    elif isinstance(x, ht.TagList):
+        for c in x:
+            yield from _live_tags(c, seen)
+
+
 def has_lazy_meta(r):
     """A tagifiable that is also a metadata node is invisible until expanded: asking for markup neither emits
     anything for it nor is required to raise."""
@@ -92,6 +106,10 @@ def check_case(ctx, r):
         ctx.violation("expansion-deps-differ", "dependencies reported by render() differ from the expanded tree's",
                       dict(wit, got=[(n, v) for n, v, _ in dep_vals(a["dependencies"])], want=[(n, v) for n, v, _ in dep_vals(b["dependencies"])]))
         return False
+    a2 = live.render()
+    if a2["html"] != a["html"] or dep_vals(a2["dependencies"]) != dep_vals(a["dependencies"]):
+        ctx.violation("expansion-not-repeatable", "rendering the same tree a second time gives a different result", dict(wit, first=a["html"][:800], second=a2["html"][:800]))
+        return False
     t = live.tagify()
     if fp(t) != fp(live_exp):
         ctx.violation("tagify-structure-differs", "tagify() result is structurally different from the expanded tree", wit)
@@ -110,7 +128,9 @@ def check_case(ctx, r):
     for k, ((shape, mk_a), (_, mk_b)) in enumerate(zip(roots(gen.build(r)), roots(gen.build(exp[0]) if r["k"] == "tag" else ht.TagList(*[gen.build(c) for c in exp])))):
         if k != which and k != 0:
             continue
-        da = ht.HTMLDocument(mk_a()).render()
+        root_a = mk_a()
+        doc_a = ht.HTMLDocument(root_a)
+        da = doc_a.render()
         db = ht.HTMLDocument(mk_b()).render()
         ctx.count("oracle.document")
         ctx.state("document_roots", shape)
@@ -118,6 +138,27 @@ def check_case(ctx, r):
             ctx.violation("document-expansion-differs", "HTMLDocument.render() (%s root) differs from rendering the expanded tree" % shape,
                           dict(wit, root=shape, got=da["html"][:1200], want=db["html"][:1200]))
             return False
+        da2 = doc_a.render()
+        if da2["html"] != da["html"]:
+            ctx.violation("expansion-not-repeatable", "rendering the same document a second time gives a different result (%s root)" % shape,
+                          dict(wit, root=shape, first=da["html"][:1000], second=da2["html"][:1000]))
+            return False
+        # the content changes after a rendering (a tagifiable with a dependency is added somewhere inside): the next rendering shows it
+        root_c = list(roots(gen.build(r)))[k][1]()   # a fresh copy of this root: the other roots share `x`
+        doc_a = ht.HTMLDocument(root_c)
+        doc_a.render()
+        tags_in = [x for x in _live_tags(root_c)]
+        if tags_in:
+            target = tags_in[ctx.rng.randrange(len(tags_in))]
+            if target.name not in ("script", "style", "head", "html"):
+                late = {"k": "tf", "ret": "list", "c": [{"k": "text", "s": "late;"}, {"k": "dep", "name": "latedep", "version": "3.0", "script": [{"src": "late.js"}]}]}
+                target.append(gen.build(late))
+                dc = doc_a.render()
+                ctx.count("oracle.document_after_change")
+                if "late;" not in dc["html"] or "late.js" not in dc["html"] or "latedep" not in [d.name for d in dc["dependencies"]]:
+                    ctx.violation("document-stale-after-change", "a tagifiable added to the content after a rendering is missing from the next rendering (%s root)" % shape,
+                                  dict(wit, root=shape, got=dc["html"][:1200]))
+                    return False
     # error half
     ctx.count("oracle.unexpanded")
     raised = None
@@ -208,7 +249,9 @@ def rand_node(rng, ids, depth, kind=None):
         return {"k": "list", "t": rng.choice(["list", "tuple", "taglist"]), "c": [rand_node(rng, ids, depth - 1) for _ in range(rng.randint(0, 3))]}
     if kind in ("tf", "tfobj"):
         ret = rng.choice(["list", "list", "list", "one"])
-        as_ = rng.choice([None] * 8 + ["str", "meta"]) if kind == "tf" else None
+        as_ = rng.choice([None] * 8 + ["str", "meta", "stored", "stored", "sublist"]) if kind == "tf" else None
+        if as_ == "sublist":
+            ret = "list"
         if ret == "one":
             c = [rand_node(rng, ids, depth - 1, rng.choice(["tag", "text", "html", "dep", "meta", "tf", "empty"]))]
         else:
@@ -282,7 +325,9 @@ def _run(ctx):
     html = gen.TAG("html", gen.TAG("head", gen.TAG("title", {"k": "text", "s": "T"}), via_fn=False), body, via_fn=False)
     empty = {"k": "tf", "ret": "list", "c": []}
     roots = [[empty, body], [body, empty], [empty, html], [{"k": "tf", "ret": "list", "c": [body]}], [{"k": "tf", "ret": "one", "c": [body]}],
-             [{"k": "tf", "ret": "one", "c": [html]}], [{"k": "tf", "ret": "list", "c": [html]}, empty], [empty, empty]]
+             [{"k": "tf", "ret": "one", "c": [html]}], [{"k": "tf", "ret": "list", "c": [html]}, empty], [empty, empty],
+             [{"k": "tf", "as": "stored", "ret": "one", "c": [html]}], [{"k": "tf", "as": "stored", "ret": "one", "c": [body]}],
+             [{"k": "tf", "as": "sublist", "ret": "list", "c": [body]}], [{"k": "tf", "as": "stored", "ret": "list", "c": [html]}]]
     for i, c in enumerate(roots):
         if ctx.mine(i):
             root = {"k": "list", "t": "taglist", "c": c}
@@ -300,7 +345,7 @@ def _run(ctx):
     ex = gen.TAG("div", {"k": "text", "s": "a"}, {"k": "tf", "ret": "list", "c": [{"k": "text", "s": "x"}, gen.TAG("b", ws=False)]}, {"k": "tf", "ret": "list", "c": []})
     ctx.sample({"recipe": ex, "output": gen.build(ex).render()["html"]})
     # 2. random trees
-    for _ in range(ctx.budget(1500, 900000)):
+    for _ in range(ctx.budget(800, 900000)):
         ids = lg.Ids()
         d = rng.choice([1, 2, 3, 4, 5])
         if rng.random() < 0.25:
